@@ -104,12 +104,20 @@ def special_cause(d, rid, pos, name, sites):
     """Root-cause signatures of the two listed findings (decided from the dynamic facts, not from the failure)."""
     ins = d.ins
     real = [s for s in sites if s in ins.sites]
-    if ins.read_scope[rid] == 0 and real and len(real) == len(sites) and all(
-            ins.sites[s][2] != 0 and name in ins.global_decl.get(ins.sites[s][2], ()) for s in real):
+    if ins.read_scope[rid] == 0 and real and len(real) == len(sites) and all(s in ins.global_sites for s in real):
         return 'global-binding-invisible-at-module-level'
-    if pos in ins.ann_self and sites == [ins.ann_self[pos]]:
-        return 'annotation-reads-own-target'
+    if annotation_after_binding(ins, pos, sites):
+        return 'annotation-evaluated-after-binding'
     return None
+
+
+def annotation_after_binding(ins, pos, sites):
+    """The read is (part of) the annotation of `t: ann = value` and every run-time binding site lies inside that
+    same statement (its target or a walrus in its value): CPython evaluates the annotation last."""
+    if pos not in ins.ann_range or not sites:
+        return False
+    lo, hi = ins.ann_range[pos]
+    return all(isinstance(s, tuple) and lo <= s < hi for s in sites)
 
 
 def classify_known(sig):
@@ -121,7 +129,7 @@ def classify_known(sig):
 
 KNOWN_SIGS = {
     'C01-global-at-module-level': lambda sig: sig == 'global-binding-invisible-at-module-level',
-    'C01-annotation-reads-own-target': lambda sig: sig == 'annotation-reads-own-target',
+    'C01-annotation-after-binding': lambda sig: sig == 'annotation-evaluated-after-binding',
 }
 _listed = {e['id'] for e in core.load_known(PROPERTY) if e.get('status') == 'finding'}
 KNOWN_SIGS = {k: v for k, v in KNOWN_SIGS.items() if k in _listed}
